@@ -1186,6 +1186,10 @@ func c16StepSchedules(r *c16Runner, rnd *vRand) {
 				if variant == "lru" || variant == "orch" {
 					for _, b := range alpha {
 						run(c16sSpec{variant: variant, loadOK: ok, pre: pres(), between: []string{a, b}})
+						if variant == "lru" && !ok && (a == "put1" || a == "get1" || b == "put1" || b == "get1") {
+							// the failed Get (and every Get that waited for it) parked between Swap(Removed) and the unlink
+							run(c16sSpec{variant: variant, loadOK: ok, hold: true, between: []string{a, b}})
+						}
 					}
 				}
 			}
@@ -1221,7 +1225,7 @@ func c16SingleFlightStorm(r *c16Runner, seed uint64) {
 	w.store.hook = func(docid string) {
 		calls[int(docid[1]-'0')].Add(1)
 	}
-	rounds, nG := vBudget(40000, 200000), 8
+	rounds, nG := vBudget(12000, 120000), 8
 	if p := runtime.GOMAXPROCS(0); p < nG {
 		nG = p
 	}
@@ -1244,7 +1248,7 @@ func c16SingleFlightStorm(r *c16Runner, seed uint64) {
 					if stop.Load() {
 						return
 					}
-					if spins%2000 == 1999 {
+					if spins%256 == 255 {
 						runtime.Gosched()
 					}
 				}
@@ -1264,7 +1268,7 @@ func c16SingleFlightStorm(r *c16Runner, seed uint64) {
 		finished.Store(0)
 		gen.Add(1)
 		for spins := 0; finished.Load() < int64(nG); spins++ {
-			if spins%2000 == 1999 {
+			if spins%256 == 255 {
 				runtime.Gosched()
 			}
 		}
